@@ -4,6 +4,7 @@ import AasVerif.Lemmas.SdkTotal
 import AasVerif.Lemmas.SdkTyped
 import AasVerif.Lemmas.XmlText
 import AasVerif.Lemmas.SdkXmlRound
+import AasVerif.Lemmas.SdkXmlTotal
 /-!
 # C10 — Python SDK serialization round-trips and rejects bad documents
 
@@ -147,6 +148,16 @@ theorem xml_roundtrip (mm : MM) (hwf : mm.wfXml = true) (ns : Text) (py : PyOrac
     (hf : floatsOk py i = true) :
     fromXml mm ns py c (toXml mm ns i) = .ok i :=
   rtx_top mm hwf ns py hint c i hi hf
+
+/-- Reading ANY element tree (any tags, namespaces, texts, tails, attributes, nesting) through any
+class of a well-formed meta-model, with any `int()`/`float()` oracle, never ends in an exception
+other than `DeserializationException` (the not-well-formed case is the lexical layer: `ParseError`
+is turned into `DeserializationException` by `_with_elements_cleared_after_yield`, checked by the
+oracle). -/
+theorem fromXml_total (mm : MM) (hwf : mm.wf = true) (ns : Text) (py : PyOracle) (c : Name)
+    (cd : ClassDecl) (hc : mm.findClass c = some cd) (e : Elem) (exc : String) :
+    fromXml mm ns py c e ≠ .crash exc :=
+  xRead_total mm hwf ns py e (.asElement c) (by simp [modeKnown, hc]) exc
 
 /-! Non-vacuity: a well-formed meta-model with a hierarchy, and an instance of a descendant that
 meets the hypotheses of `json_roundtrip`, `json_roundtrip_via_parent`. -/
